@@ -63,7 +63,7 @@ def singleFrame (p : Policy) : Bool :=
   | _ => false
 
 def seqOp (q : SeqSt) (ws : List String) : SeqSt × String :=
-  if singleFrame q.s.cfg.pol && !q.s.frames.isEmpty && (ws.head? == some "alloc" || ws.head? == some "coro" || ws.head? == some "cdrop" || ws.head? == some "cstart") then
+  if singleFrame q.s.cfg.pol && !q.s.frames.isEmpty && (ws.head? == some "alloc" || ws.head? == some "coro" || ws.head? == some "cdrop" || ws.head? == some "cstart" || ws.head? == some "athrow" || ws.head? == some "cthrow") then
     (q, "skip")
   else
   match ws with
@@ -76,14 +76,26 @@ def seqOp (q : SeqSt) (ws : List String) : SeqSt × String :=
           | (_, Res.rejected) => (q, s!"assert sz={sz}")
           | _ => (q, "skip")
       | _, _ => (q, "skip")
-  | [c, k, kind] =>
-      if c == "coro" || c == "cdrop" then
-        match k.toNat?, kind.toNat? with
+  | ["free", id] => match id.toNat? with | some id => seqFree q id false | none => (q, "skip")
+  | ["fin", id] => match id.toNat? with | some id => seqFree q id false | none => (q, "skip")
+  | ["kill", id] => match id.toNat? with | some id => seqFree q id true | none => (q, "skip")
+  | [thr, k, v] =>
+      -- the factory of the extra object throws: raw (`athrow k sz`) or while a coroutine is created (`cthrow k kind`)
+      if (thr == "athrow" || thr == "cthrow") && q.s.cfg.extra > 0 then
+        match k.toNat?, v.toNat? with
+        | some k, some v =>
+            let sz := if thr == "athrow" then v else q.fs.getD (v % 8) 0
+            match step q.s (Op.allocThrow k sz) with
+            | (s', Res.unit) => ({ q with s := s' }, line s!"{thr} sz={sz} thrown=1 ex=+0-0" q.s.heap s'.heap)
+            | _ => (q, "skip")
+        | _, _ => (q, "skip")
+      else if thr == "coro" || thr == "cdrop" then
+        match k.toNat?, v.toNat? with
         | some k, some kind =>
             let sz := q.fs.getD (kind % 8) 0
             match step q.s (Op.alloc k sz) with
             | (s', Res.alloc id blk) =>
-                if c == "coro" then
+                if thr == "coro" then
                   ({ q with s := s', coros := id :: q.coros },
                    line (s!"coro#{id} sz={sz} at={blkStr blk} in=1" ++ exA q.s sz) q.s.heap s'.heap)
                 else
@@ -94,9 +106,6 @@ def seqOp (q : SeqSt) (ws : List String) : SeqSt × String :=
             | _ => (q, "skip")
         | _, _ => (q, "skip")
       else (q, "skip")
-  | ["free", id] => match id.toNat? with | some id => seqFree q id false | none => (q, "skip")
-  | ["fin", id] => match id.toNat? with | some id => seqFree q id false | none => (q, "skip")
-  | ["kill", id] => match id.toNat? with | some id => seqFree q id true | none => (q, "skip")
   | ["cstart", k, kind, _mode] =>
       -- `async::start(promise)` with an unclaimable promise: the coroutine stays with the async object, which releases it
       match k.toNat?, kind.toNat? with
